@@ -304,8 +304,6 @@ class Harness:
                 if g != want[ax]:
                     raise Violation(f'{what}: landed at {list(got)}', expected=[float(v) for v in want],
                                     observed=list(got))
-                if not self.cont and type(got[ax]) is not int:
-                    raise Violation(f'{what}: grid coordinate {got[ax]!r} is not an int', observed=list(got))
 
     def check(self, w):
         for k in self.agents:
